@@ -1,5 +1,6 @@
 import OrsoVerif.Generated.Validate
 import OrsoVerif.Generated.ValidateFlow
+import OrsoVerif.Generated.AppendFlow
 /-!
 # C05 — record validation, atomic append, and one schema object used many times
 
@@ -175,6 +176,90 @@ def rowConforms (s : List Column) (row : List Value) : Bool :=
     | none, _ => c.nullable
     | some cls, some ty => isInstance cls ty
     | some _, none => true
+
+/-! ## the record *object*: which objects validate lets in, which ones append copies, which ones the row factory reads -/
+
+/-- Facts about a record object, measured on the interpreter with `isinstance` / `type(…) is dict`. -/
+structure Kind where
+  isDict : Bool            -- isinstance(obj, dict)
+  exactDict : Bool         -- type(obj) is dict
+  isMutableMapping : Bool  -- isinstance(obj, collections.abc.MutableMapping)
+  isMapping : Bool         -- isinstance(obj, collections.abc.Mapping)
+  deriving Repr, DecidableEq
+
+/-- a plain `dict` -/
+def Kind.dict : Kind := ⟨true, true, true, true⟩
+
+/-- CPython's class hierarchy: exact dict ⊆ dict ⊆ MutableMapping ⊆ Mapping. -/
+def Kind.wf (k : Kind) : Bool :=
+  (!k.exactDict || k.isDict) && (!k.isDict || k.isMutableMapping) && (!k.isMutableMapping || k.isMapping)
+
+/-- schema.py: the object passes the type test at the top of `validate` (generated). -/
+def guardAccepts (k : Kind) : Bool :=
+  Gen.AppendFlow.guardAccepts k.isDict k.exactDict k.isMutableMapping k.isMapping
+
+/-- dataframe.py: `append` copies the object into a plain dict first (generated). -/
+def coerces (k : Kind) : Bool :=
+  Gen.AppendFlow.coerceGuard k.isDict k.exactDict k.isMutableMapping k.isMapping
+
+/-- row.py: the row factory reads the object by key (generated); otherwise it iterates it. -/
+def rowReads (k : Kind) : Bool :=
+  Gen.AppendFlow.rowReadsMapping k.isDict k.exactDict k.isMutableMapping k.isMapping
+
+/-- What the record object is after the `coerce` statement of `append`. -/
+def afterCoerce (k : Kind) : Kind := if coerces k then Kind.dict else k
+
+/-- `RelationSchema.validate` on a record object of kind `k`. -/
+def validateK (k : Kind) (s : List Column) (r : Record) : Outcome :=
+  match Gen.ValidateFlow.top (!guardAccepts k) (decide (excessKeys s r ≠ [])) (s.any fun c => decide (ruleOf r c ≠ [])) with
+  | .excess => .excess (excessKeys s r)
+  | .invalid => .invalid (collect kMissing s r) (collect kNull s r) (collect kWrong s r)
+  | .ok => .ok
+  | _ => .other
+
+/-- The loop body with Python's evaluation order (generated): `none` = a KeyError escapes the loop. -/
+def ruleOfE (r : Record) (c : Column) : Option (List String) :=
+  Gen.ValidateFlow.columnRuleE (atomPresent r c) (atomIsNone r c) c.nullable (atomTyped c) (atomInst r c)
+
+/-- `validate` with evaluation errors: an exception raised while a column is examined escapes — after the type
+test and the excess-key check, which come first. -/
+def validateKE (k : Kind) (s : List Column) (r : Record) : Outcome :=
+  if guardAccepts k && decide (excessKeys s r = []) && s.any (fun c => (ruleOfE r c).isNone) then .other
+  else validateK k s r
+
+/-- What `tuple(obj)` makes of a mapping that is *not* read by key: its keys. -/
+def keysRow (r : Record) : List Value := r.map fun _ => some "<key>"
+
+/-- The statements of `DataFrame.append` for a record object of kind `k`: `coerce` may turn the object into a
+plain dict, `validate` applies its type test to what it is then, `build` reads it by key only if the row factory
+recognises it. -/
+def runStepsK (s : List Column) (r : Record) (sizable : Bool) :
+    Kind → List Step → List (List Value) → Option (List Value) → List (List Value) × AppendResult
+  | _, [], rows, _ => (rows, .ok)
+  | k, .coerce :: rest, rows, row => runStepsK s r sizable (afterCoerce k) rest rows row
+  | k, .validate :: rest, rows, row =>
+    if validateK k s r = .ok then runStepsK s r sizable k rest rows row else (rows, .rejected (validateK k s r))
+  | k, .build :: rest, rows, _ => runStepsK s r sizable k rest rows (some (if rowReads k then rowOf s r else keysRow r))
+  | k, .size :: rest, rows, some row => if sizable then runStepsK s r sizable k rest rows (some row) else (rows, .unsizable)
+  | _, .size :: _, rows, none => (rows, .malformed)
+  | k, .store :: rest, rows, some row => runStepsK s r sizable k rest (rows ++ [row]) (some row)
+  | _, .store :: _, rows, none => (rows, .malformed)
+  | k, .materialize :: rest, rows, row => runStepsK s r sizable k rest rows row
+  | k, .count :: rest, rows, row => runStepsK s r sizable k rest rows row
+  | k, .cursor :: rest, rows, row => runStepsK s r sizable k rest rows row
+
+/-- `DataFrame.append` of a record object of kind `k` on a schema-bound frame. -/
+def appendK (s : List Column) (rows : List (List Value)) (k : Kind) (r : Record) (sizable : Bool) :
+    List (List Value) × AppendResult :=
+  runStepsK s r sizable k Gen.ValidateFlow.appendSteps rows none
+
+def appendsK (s : List Column) (rows : List (List Value)) : List (Kind × Record × Bool) → List (List Value)
+  | [] => rows
+  | (k, r, z) :: rs => appendsK s (appendK s rows k r z).1 rs
+
+def appendResultsK (s : List Column) (rows : List (List Value)) : List (Kind × Record × Bool) → List AppendResult
+  | [] => []
+  | (k, r, z) :: rs => (appendK s rows k r z).2 :: appendResultsK s (appendK s rows k r z).1 rs
 
 /-! ## one schema object, used many times -/
 
